@@ -24,6 +24,7 @@ import (
 	r "github.com/Trisia/randomness"
 
 	"verif/common"
+	"verif/refmodel"
 	"verif/e1"
 	"verif/enum"
 	"verif/explore"
@@ -201,7 +202,7 @@ func expected(col Column, data []byte, bits []bool, cache map[string][]float64) 
 // checkRow compares the values of a row (already split into floats) with the columns' specification.
 // It returns the list of mismatching column labels.
 func checkRow(cols []Column, vals []float64, data []byte) []string {
-	bits := r.B2bitArr(data)
+	bits := refmodel.Bits(data) // an own expansion: the oracle must not share a conversion cache with the tool
 	cache := map[string][]float64{}
 	var bad []string
 	if len(vals) != len(cols) {
@@ -344,6 +345,26 @@ type Params struct {
 	Small   bool   `json:"small"`    // columns mode: 12500-byte files (race pass)
 	Stale   bool   `json:"stale"`    // sched mode: a longer report of an earlier run already exists at the report path
 	Dup     bool   `json:"dup"`      // two sample files with the same base name and different contents in two sub-directories
+	Near    bool   `json:"near"`     // a sample file and five copies that differ from it in one byte each
+}
+
+// addNear plants a sample file and five near-copies of the same size, each differing from it in ONE byte (at
+// offsets 13, 29, size/3+5, size/2+21, size-11): captures that share almost all of their contents. Each row must
+// hold its own file's values. It returns the names.
+func addNear(root, in string, nf, size int, data map[string][]byte) []string {
+	a := contents(nf+7, size)
+	names := []string{"near-a.bin"}
+	_ = os.WriteFile(filepath.Join(root, in, names[0]), a, 0o644)
+	data[names[0]] = a
+	for k, p := range []int{13, 29, size/3 + 5, size/2 + 21, size - 11} {
+		b := append([]byte{}, a...)
+		b[p] ^= 0xFF
+		n := fmt.Sprintf("near-b%d.bin", k)
+		_ = os.WriteFile(filepath.Join(root, in, n), b, 0o644)
+		data[n] = b
+		names = append(names, n)
+	}
+	return names
 }
 
 const dupName = "same.bin"
@@ -506,7 +527,7 @@ func trunc(s string, n int) string {
 }
 
 func expectedRow(cols []Column, data []byte) []float64 {
-	bits := r.B2bitArr(data)
+	bits := refmodel.Bits(data) // an own expansion: the oracle must not share a conversion cache with the tool
 	cache := map[string][]float64{}
 	out := make([]float64, len(cols))
 	for i, c := range cols {
@@ -678,6 +699,11 @@ func handle(h Hooks, t e1.Task) (*e1.Result, map[uint64]struct{}) {
 	for n, b := range data {
 		expRows[n] = expectedRow(cols, b)
 	}
+	if p.Near {
+		for _, n := range addNear(base, inDir, p.Files, fileSize(p.Scale), data) {
+			expRows[n] = expectedRow(cols, data[n])
+		}
+	}
 	if p.Dup {
 		dupRows = addDup(base, inDir, p.Files, fileSize(p.Scale), cols, data)
 	}
@@ -790,6 +816,11 @@ func Run(ctx *common.Ctx) int {
 				// input directory and a sub-directory whose own names end in .bin / .dat: they are not samples
 				pd, _ := json.Marshal(Params{Mode: "sched", Scale: "2E4", Files: F, Workers: nW, DotDirs: true})
 				tasks = append(tasks, e1.Task{Check: "C13", Name: fmt.Sprintf("c13/sched-dotdirs/F%d/n%d/b1", F, nW), Params: pd, Bound: 1, W: 4, NShards: 1, CostAll: true})
+			}
+			if F == 1 && nW <= 2 {
+				// a sample file and five copies that differ from it in one byte each
+				pn, _ := json.Marshal(Params{Mode: "sched", Scale: "2E4", Files: F, Workers: nW, Near: true})
+				tasks = append(tasks, e1.Task{Check: "C13", Name: fmt.Sprintf("c13/sched-nearcopies/F%d+6/n%d/b1", F, nW), Params: pn, Bound: 1, W: 4, NShards: 1, CostAll: true})
 			}
 			if F == 1 && nW <= 2 {
 				// two more sample files share a base name in two sub-directories: one row each
